@@ -447,10 +447,15 @@ def gen_case(seed, nlits=12):
                          '400000000001e-11', '0.5000000000000001', '-0.33333333333333337', '7.000000000000001'])
         case['explit'] = {'form': 'cn', 'text': text, 'exp': None}
     if r.random() < 0.5:
-        # literals inside larger expressions (distinct, none of them 1 or an integer SymPy would fold structurally)
+        # literals inside larger expressions (distinct; the factors c may be 1 or -1 in any spelling)
         pool = ['2.5', '3.3', '1.1', '7.3', '0.3', '1000.1', '0.001', '1.0000000000000002', '6.02214076e23', '4.9e-324',
                 '1.7976931348623157e308', '0.30000000000000004', '12345.678901234567', '9.5e-7']
         case['compound'] = r.sample(pool, 7)
+        # the edge value one as a factor (any spelling): it is a literal of the document like any other
+        r1 = random.Random(seed * 7 + 3)
+        for pos in (0, 2):
+            if r1.random() < 0.35:
+                case['compound'][pos] = r1.choice(['1', '1.0', '-1', '100e-2', '-1.0', '0.01e2'])
     if r.random() < 0.4:
         x = rand_value(r, r.choice(['bits', 'moderate', 'short', 'extreme', 'subnormal']))
         if x != 0 and math.isfinite(x):
